@@ -80,6 +80,14 @@ def _finish(prop, tier, seed, res, skipped, rule, bound, assumptions, extra_cov=
     return rc
 
 
+def _hang(prop, out):
+    """xvdrive's watchdog ended the run: a kernel call did not return within 60 s."""
+    h = json.load(open(out))
+    path = vlib.write_replay(prop, 0, h)
+    print("VIOLATION property=%s replay=%s  # %s<%s> on %s (param %s) did not return within 60 s" % (prop, path, h.get("op"), h.get("type"), h.get("arch"), h.get("param")))
+    return 1
+
+
 class Elementwise:
     """A property decided by xvdrive over harness objects h_<group>.cpp."""
 
@@ -124,7 +132,11 @@ class Elementwise:
             cmd += ["--known", known]
         for m in mods:
             cmd += ["--mod", m]
+        if os.path.exists(out):
+            os.unlink(out)
         p = subprocess.run(cmd)
+        if p.returncode == 4 and os.path.exists(out):
+            return _hang(prop, out)
         if p.returncode != 0:
             print("[vcheck] explorer failed with status %d" % p.returncode)
             return 2
@@ -331,7 +343,14 @@ class DrivePart:
             cmd += ["--known", known]
         for m in mods:
             cmd += ["--mod", m]
-        if subprocess.run(cmd).returncode != 0:
+        if os.path.exists(out):
+            os.unlink(out)
+        rc = subprocess.run(cmd).returncode
+        if rc == 4 and os.path.exists(out):
+            h = json.load(open(out))
+            return {"states": 0, "transitions": 0, "violations_unknown": 1, "violations_total": 1, "exhaustive": False, "by_key": {"%s|%s|%s|" % (h.get("op"), h.get("type"), h.get("arch")): 1},
+                    "violations": [{"property": prop, "op": h.get("op"), "type": h.get("type"), "arch": h.get("arch"), "param": h.get("param"), "finding": "", "in": [], "note": "the kernel call did not return within 60 s"}]}, skipped
+        if rc != 0:
             return None
         return json.load(open(out)), skipped
 
@@ -835,7 +854,7 @@ CHECKS = {
         ("exact", DrivePart(["scalar"], [], deadline=(600, 7200))),
         ("elementary", MathPart("float,double", ["--scalar"], full_archs=["sse2", "fma3_avx2", "avx512vnni_avx512vbmi2"])),
     ], RULE_EW + "; the scalar overloads are run one element per call and judged by the same reference models as the batch lanes (so scalar == batch wherever the model is single-valued); NaN operands are outside the property; the scalar overloads of the elementary functions (exp ... lgamma, sqrt: 26 functions x float/double, compiled with every architecture's flags) are judged against the exact result (glibc first reference, MPFR arbiter) with the bound the property text states for the family (4.5 ulp; erfc 128; tgamma 16/256; lgamma 8; sqrt 0.5), which together with C10/C11 for the batch lanes bounds their disagreement", {
-        "quick": "elementary: the C10/C11 quick unary argument spaces; exact: the C01/C02/C03/C06/C07/C08 operand spaces (8-bit pairs exhaustive, ALL16 x L16, lattices^2, every shift/rotate count, fp lattices, rounding windows) for add, sub, mul, div, mod, neg, abs, min, max, sadd, ssub, avg, avgr, incr/decr(_if), bitwise operators, shifts, rotates, comparisons, select, is_flint/is_even/is_odd, fma family, nearbyint_as_int, bitwise_cast, clip, pow with 21 integer exponents (scalar and batch forms against the shared square-and-multiply model); all 22 architectures' compile flags",
+        "quick": "elementary: the C10/C11 quick unary argument spaces; exact: the C01/C02/C03/C06/C07/C08 operand spaces (8-bit pairs exhaustive, ALL16 x L16, lattices^2, every shift/rotate count, fp lattices, rounding windows) for add, sub, mul, div, mod, neg, abs, min, max, sadd, ssub, avg, avgr, incr/decr(_if), bitwise operators, shifts, rotates, comparisons, select, is_flint/is_even/is_odd, fma family, nearbyint_as_int, bitwise_cast, clip, pow with 26 integer exponents incl. INT_MAX and INT_MIN (scalar and batch forms against the shared square-and-multiply model); all 22 architectures' compile flags",
         "thorough": "as quick with the thorough spaces of the underlying properties (elementary: all 2^32 float32 arguments with the flags of sse2, fma3<avx2> and avx512vnni<avx512vbmi2>; the lattices with every architecture's flags)"}),
 }
 
